@@ -24,9 +24,9 @@ func init() {
 
 func c11MaxLen(tier string) int {
 	if tier == "thorough" {
-		return 12
+		return 16
 	}
-	return 6
+	return 8
 }
 
 func c11Jobs(tier string, seed int64) []*engine.Job {
